@@ -110,6 +110,7 @@ def t_log1p(a):
     a = _f(a)
     if math.isnan(a) or a < -1: return math.nan
     if a == -1: return -math.inf
+    if abs(a) <= TINY: return math.copysign(0.0, a)      # torch's vectorised log1p flushes the smallest subnormal to zero
     return math.log1p(a)
 
 
